@@ -148,3 +148,8 @@ def shape_key(case, results):
                 return "panic-n%d" % n
             return "own-mismatch-n%d" % n
     return "none"
+
+SOURCE_TIE = "Source-level tie by proof (Tie/Own, Tie/Inter, Props/C15s): exclusively_owned_areas as regenerated from the source clips box i, in index order, against exactly the boxes that are not too_far from it; with C08_toofar_sound every other box sharing a point with box i is subtracted; geo's difference / area are contract parameters."
+LEVEL_TEXT = LEVEL_TEXT + " " + SOURCE_TIE
+TRUSTED_BASE = TRUSTED_BASE + ["translator/kernels.py + rustexpr.py (reader of the Rust subset, per-function tables) for the functions named in SOURCE_TIE; generated definitions are proof obligations (Tie modules) on every run"]
+TECHNIQUE = TECHNIQUE + "; model regenerated from the source by a translator for the functions of SOURCE_TIE, tied by proof"
